@@ -43,17 +43,6 @@ theorem default_range_qbpp_limit_eq_T87 (P : Nat) (N : Int) (h : Admissible P N)
 example : Admissible 16 255 ∧ (T87.defaults 65535 255).RANGE = 130 ∧ (T87.defaults 65535 255).qbpp = 8 ∧
     (T87.defaults 65535 255).LIMIT = 64 := by decide
 
-/-- (2) thresholds: what is proved of `default_params_eq_T87_FullStatement` — T1, T2, T3 equal
-    T.87's whenever no Table C.3 expression exceeds MAXVAL.  Missing: the complementary case,
-    where the code deviates (`default_thresholds_counterexample`). -/
-theorem default_params_eq_T87_partial (P : Nat) (N : Int) (h : Admissible P N)
-    (hov : (T87.rawT ((2 : Int) ^ P - 1) N).1 ≤ (2 : Int) ^ P - 1 ∧
-           (T87.rawT ((2 : Int) ^ P - 1) N).2.1 ≤ (2 : Int) ^ P - 1 ∧
-           (T87.rawT ((2 : Int) ^ P - 1) N).2.2 ≤ (2 : Int) ^ P - 1) :
-    (T87.defaults ((2 : Int) ^ P - 1) N).T1 = (traits P N).T1 ∧
-    (T87.defaults ((2 : Int) ^ P - 1) N).T2 = (traits P N).T2 ∧
-    (T87.defaults ((2 : Int) ^ P - 1) N).T3 = (traits P N).T3 := thresholds_eq_of_no_overflow P N h hov
-
 example : Admissible 8 3 ∧ (T87.rawT 255 3).1 ≤ 255 ∧ (T87.rawT 255 3).2.1 ≤ 255 ∧ (T87.rawT 255 3).2.2 ≤ 255 ∧
     (T87.defaults 255 3).T1 = 12 ∧ (T87.defaults 255 3).T2 = 22 ∧ (T87.defaults 255 3).T3 = 42 := by decide
 
